@@ -1,6 +1,7 @@
 package main
 
 import (
+	"runtime/debug"
 	"encoding/json"
 	"flag"
 	"fmt"
@@ -105,6 +106,9 @@ func main() {
 func runRule(rf ruleFn, c *Ctx, r *Report) {
 	defer func() {
 		if e := recover(); e != nil {
+			if os.Getenv("VCHECK_DEBUG") != "" {
+				fmt.Fprintf(os.Stderr, "PANIC %v\n%s\n", e, debug.Stack())
+			}
 			r.Undecided(r.Prop+".internal:panic", "", "analysis panicked: %v", e)
 			if os.Getenv("VCHECK_DEBUG") != "" {
 				panic(e)
